@@ -341,28 +341,33 @@ func main() {
 
 	<-raceDone
 
-	run.Require("split_cases", int64(lib.Pick(500, 12000)))
-	run.Require("offers_total", int64(lib.Pick(150000, 3000000)))
-	run.Require("offers_rejected", int64(lib.Pick(100000, 2000000)))
-	run.Require("offers_accepted", 5000)
-	run.Require("offers[index=-1]", 1000)
-	run.Require("offers[index=total]", 1000)
-	run.Require("offers[index=other-valid]", 1000)
-	run.Require("offers[bytes-bitflip]", 5000)
-	run.Require("offers[aunt-bitflip]", 5000)
-	run.Require("offers[aunts-missing-one]", 1000)
-	run.Require("offers[aunts-swapped-adjacent]", 500)
-	run.Require("offers[aunts-extra-appended-copy]", 1000)
-	run.Require("permutations_exhaustive", 3000)
-	run.Require("permutations_random", 500)
-	run.Require("arrival_duplicates", 5000)
-	run.Require("completions_checked", 5000)
+	run.Require("split_cases", int64(lib.Pick(1000, 16000)))
+	run.Require("offers_total", int64(lib.Pick(1000000, 10000000)))
+	run.Require("offers_rejected", int64(lib.Pick(600000, 8000000)))
+	run.Require("offers_accepted", 200000)
+	run.Require("offers[index=-1]", 8000)
+	run.Require("offers[index=total]", 8000)
+	run.Require("offers[index=MaxInt]", 8000)
+	run.Require("offers[index=MinInt]", 8000)
+	run.Require("offers[index=other-valid]", 50000)
+	run.Require("offers[bytes-bitflip]", 80000)
+	run.Require("offers[aunt-bitflip]", 100000)
+	run.Require("offers[aunts-missing-one]", 25000)
+	run.Require("offers[aunts-swapped-adjacent]", 15000)
+	run.Require("offers[aunts-extra-appended-copy]", 8000)
+	run.Require("permutations_exhaustive", 10000)
+	run.Require("permutations_random", 2000)
+	run.Require("arrival_duplicates", 100000)
+	run.Require("completions_checked", 15000)
 	run.Require("trees", 90)
-	run.Require("generated_proofs", 3000)
-	run.Require("matrix_cells", int64(lib.Pick(1000000, 5000000)))
-	run.Require("field_mutations", 10000)
+	run.Require("generated_proofs", 6000)
+	run.Require("matrix_cells", int64(lib.Pick(2000000, 50000000)))
+	run.Require("field_mutations", 50000)
 	run.Require("blocks_reassembled_and_decoded", int64(nb))
-	run.Require("race_writer_offers", 1000)
-	run.Require("race_reader_calls_while_writer_active", 1000)
+	run.Require("race_writer_offers", int64(lib.Pick(2000, 20000)))
+	run.Require("race_reader_calls_while_writer_active", 100000)
+	for _, k := range []string{"BitArray", "GetPart", "IsComplete", "Count", "HasHeader", "BitArray+GetPart"} {
+		run.Require("race_reader_calls["+k+"]", 10000)
+	}
 	os.Exit(run.Finish())
 }
